@@ -314,6 +314,11 @@ func modf(t *rt.Thread, c *rt.GoCont) (rt.Cont, error) {
 		i, f = x, 0
 	} else {
 		i, f = math.Modf(x)
+		if f == 0 {
+			// The fractional part of an integral value is 0.0 (math.Modf
+			// gives it the sign of x).
+			f = 0
+		}
 	}
 	t.Push1(next, rt.FloatValue(i))
 	t.Push1(next, rt.FloatValue(f))
